@@ -12,7 +12,8 @@ RULE = (
     "linear / alternating / random walk / white noise / positive log-normal / two-valued, scales 1e-6..1e6, plus identically zero "
     "series, series of ones and series with neighbouring values 1e-200 / 1e200 for the log filters, and for the moment summary "
     "series scaled to 1e155..1e307, to 1e-307..1e-160 and integer-typed ones; every third series is filtered again with another "
-    "lambda and then with the first one. Oracles: the array passed in is unchanged; "
+    "lambda and then with the first one. Oracles: the array passed in is unchanged (hp_filter, the three derived filters and the moment summary; 40% of the inputs "
+    "to the latter two are write-protected) and a second summary of the same array equals the first; "
     "cycle+trend==series (4 ulps of scale); backward error ||(I+lam K'K) trend - y||inf <= 1e-11 (1+16 lam) ||y||inf with the "
     "monitor's own second-difference operator; wrappers equal their definitions computed from the monitor's own banded "
     "solve (1e-8 of scale); diff_log_demean has input length and |mean| <= 1e-12 scale; 18 finite moments. "
@@ -22,7 +23,7 @@ ASSUMPTIONS = [
     "the forward error of a solve at lambda up to 1e7 is conditioning, so the optimality residual is the verdict for general lambda",
     "series for the log filters are strictly positive",
 ]
-REQUIRED_COUNTERS = {"same_series_other_lambda": 100, "zero_series": 5, "log_filter_on_ones": 20, "log_filter_on_wild_ratios": 20, "moment_series_above_1e154": 40, "moment_series_integer_typed": 40, "hp_cases": 200, "wrapper_cases": 100, "moment_cases": 200, "constant_series": 20}
+REQUIRED_COUNTERS = {"readonly_inputs_to_moment_summary": 100, "readonly_inputs_to_derived_filters": 100, "same_series_other_lambda": 100, "zero_series": 5, "log_filter_on_ones": 20, "log_filter_on_wild_ratios": 20, "moment_series_above_1e154": 40, "moment_series_integer_typed": 40, "hp_cases": 200, "wrapper_cases": 100, "moment_cases": 200, "constant_series": 20}
 SHARDS = {"quick": 8, "thorough": 16}
 
 SHAPES = ["constant", "linear", "alternating", "walk", "noise", "lognormal", "twovalued", "quadratic"]
@@ -185,9 +186,15 @@ def run_case(desc, ctx):
             wp = dict(w, positive_series_head=yp[:5])
             ly = np.log(yp)
             lsc = float(np.max(np.abs(ly))) or 1.0
+            yp_before = yp.copy()
+            if rng.random() < 0.4:
+                yp.setflags(write=False)       # a filter only reads what it is given
+                c["readonly_inputs_to_derived_filters"] = c.get("readonly_inputs_to_derived_filters", 0) + 1
             with quiet():
-                lh = np.asarray(ts.log_and_hp_filter(yp.copy()))
-                dl = np.asarray(ts.diff_log_demean_filter(yp.copy()))
+                lh = np.asarray(ts.log_and_hp_filter(yp))
+                dl = np.asarray(ts.diff_log_demean_filter(yp))
+            if not np.array_equal(yp, yp_before):
+                bad("a log filter changed the series it was given", wp)
             ref_lh = ly - ref_hp_trend(ly, 1600.0)
             if lh.shape != yp.shape or not np.max(np.abs(lh - ref_lh)) <= 1e-8 * max(lsc, 1.0):
                 bad("log_and_hp_filter != log(series) - HP trend of log(series) at lambda 1600", wp)
@@ -216,10 +223,19 @@ def run_case(desc, ctx):
         elif u < 0.30:
             ym = ym / (float(np.max(np.abs(ym))) or 1.0) * 10.0 ** rng.uniform(-307, -160)
             c["moment_series_below_1e-160"] = c.get("moment_series_below_1e-160", 0) + 1
+        ym_before = ym.copy()
+        if rng.random() < 0.4:
+            ym.setflags(write=False)
+            c["readonly_inputs_to_moment_summary"] = c.get("readonly_inputs_to_moment_summary", 0) + 1
         try:
             with quiet():
-                m = np.asarray(ts.get_mom_ts_1d(ym.copy()))
+                m = np.asarray(ts.get_mom_ts_1d(ym))
+                m_again = np.asarray(ts.get_mom_ts_1d(ym))
             c["moment_cases"] = c.get("moment_cases", 0) + 1
+            if not np.array_equal(ym, ym_before):
+                bad("get_mom_ts_1d changed the series it was given", {"shape": shape, "n": nm, "series_head": ym_before[:5]})
+            elif m.shape == (18,) and not np.array_equal(m, m_again, equal_nan=True):
+                bad("two summaries of the same series differ", {"shape": shape, "n": nm, "series_head": ym_before[:5], "first": m, "second": m_again})
             if m.shape != (18,):
                 bad(f"moment summary has shape {m.shape}, expected (18,)", {"shape": shape, "n": nm, "series_head": ym[:5]})
             elif not np.all(np.isfinite(m)):
